@@ -622,7 +622,13 @@ func NewRandSource(seed int64) rand.Source {
 		return rand.NewSource(seed)
 	}
 	a := uint64(Choose(1<<30, "rng-seed"))
-	src := &simSource{mode: RandCfg.Mode, inner: rand.NewSource(int64(a)).(rand.Source64), script: RandCfg.Script}
+	// an honest source never equals another source of the same run, also when
+	// the choice stream is exhausted (replay of a minimised trace pads with 0)
+	var k uint64
+	sim := S
+	call(func() { sim.rngN++; k = sim.rngN })
+	a = Mix(a, k, 0x726e67)
+	src := &simSource{mode: RandCfg.Mode, inner: rand.NewSource(int64(a>>1)).(rand.Source64), script: RandCfg.Script}
 	n := RandCfg.Cycle
 	if n <= 0 {
 		n = 2
